@@ -247,6 +247,10 @@ Section Total.
     pose proof (Hnames id t Hl) as Hn. pose proof (Htg id t Hl) as Ht.
     destruct (t_def t) eqn:D; cbn [ty_go]; rewrite D; cbn [elem_children] in Hch.
     - (* composite *)
+      destruct (match path_ident (t_path t), t_params t with
+                | Some "Cow", p0 :: _ => tp_ty p0
+                | _, _ => None
+                end) as [inner|]; [apply Hrec|].
       destruct (Ht eq_refl) as [Hp Hu].
       apply GP_bind; [apply GP_lift; exact Hp|]. intros p.
       apply GP_bind; [apply GP_lift; exact Hu|]. intros u.
